@@ -14,7 +14,7 @@ import json, os, random, resource, subprocess, re
 from lib import vrun
 LEVEL = "exploration"
 TRACE_CFG = {"GrammarTrace": "GrammarTrace.cfg"}
-MEM_LIMIT = 2 << 30
+MEM_LIMIT = 1 << 30
 
 
 def _limit():
@@ -93,7 +93,7 @@ def run(ctx):
     ctx.assumptions = ["structure-aware mutations of the harness's own valid specimens: not all byte strings",
                        "a case whose mutation leaves the specimen unchanged is recorded as unapplied and not judged",
                        "a decoder that dies allocating more than the address-space limit is recorded as oom and not judged (as the property states)",
-                       "hang = no return within 12 s on an in-memory input of at most a few hundred kilobytes"]
+                       "hang = no return within 60 s on an in-memory input of at most a few hundred kilobytes (allocations above the 1 GiB address-space limit fail at once and are recorded as oom)"]
     ctx.build()
     out = ctx.gen("Formats", "GrammarGen", "GrammarGen.cfg")
     schema = [o["schema"] for o in out if "schema" in o][0]
@@ -107,6 +107,12 @@ def run(ctx):
     for o in sorted((o for o in out if "cases" in o), key=lambda o: o["dec"]):
         cases += sorted(o["cases"], key=lambda c: (c["field"], c["inst"], c["mut"]))
     nsingle = len(cases)
+    # directed pairs of the grammar (always run)
+    for o in sorted((o for o in out if "pairs" in o), key=lambda o: o["pdec"]):
+        for pr in sorted(o["pairs"], key=lambda q: (q[0]["field"], q[0]["inst"], q[0]["mut"], q[1]["field"], q[1]["mut"])):
+            a, b = pr
+            cases.append(dict(a, field2=b["field"], inst2=b["inst"], mut2=b["mut"]))
+    ctx.extra["cases_directed_pairs"] = len(cases) - nsingle
     if ctx.tier == "thorough":
         rnd = random.Random(ctx.seed * 7919 + 11)
         by = {}
